@@ -258,8 +258,36 @@ pub enum Trav {
     RefIntoIter,
 }
 
+/// how an iterator is finished after `k` items were taken with `next()` ("iterator protocol":
+/// every provided/overridden `Iterator` method must agree with plain `next()` calls)
+#[derive(Clone, Copy, Debug, PartialEq, Eq, Hash)]
+pub enum Fin {
+    Fold,
+    ForEach,
+    Collect,
+    Last,
+    Count,
+    Nth(usize),
+}
+
+#[derive(Clone, Debug, PartialEq)]
+pub struct ProtoObs {
+    pub k: usize,
+    pub fin: Fin,
+    /// number of items obtained through `next()` before the finisher ran (<= k)
+    pub head: usize,
+    pub last: Option<Option<Item>>,
+    pub count: Option<usize>,
+    pub nth: Option<Option<Item>>,
+    /// (items yielded so far, size_hint lower, size_hint upper) before every `next()` and before the finisher
+    pub hints: Vec<(usize, usize, Option<usize>)>,
+}
+
 #[derive(Clone, Debug, PartialEq, Default)]
 pub struct ListObs {
+    /// set when the traversal ran in protocol mode; `items` then holds every item seen individually
+    /// (head via `next()`, then what fold/for_each/collect/next-after-nth delivered)
+    pub proto: Option<ProtoObs>,
     pub items: Vec<Item>,
     /// items of a clone taken after `clone_at` items (remaining items only)
     pub clone_rest: Option<Vec<Item>>,
